@@ -100,7 +100,6 @@ pub fn drive<F: Future>(mut fut: Pin<&mut F>, limit: usize) -> Option<F::Output>
     None
 }
 
-
 // ---- helpers for the binding harness (C20): a database outside any session, and its wire image
 
 struct NoApp;
@@ -115,9 +114,19 @@ pub fn detached_outstation(max_events: u16) -> crate::outstation::OutstationHand
         crate::link::EndpointAddress::try_new(1).unwrap(),
         crate::outstation::database::EventBufferConfig::all_types(max_events),
     );
-    let mut server = crate::tcp::Server::new_tcp_server(crate::link::LinkErrorMode::Close, "127.0.0.1:0".parse().unwrap());
+    let mut server = crate::tcp::Server::new_tcp_server(
+        crate::link::LinkErrorMode::Close,
+        "127.0.0.1:0".parse().unwrap(),
+    );
     let (handle, _future) = server
-        .add_outstation_no_spawn(cfg, Box::new(NoApp), Box::new(NoInfo), crate::outstation::DefaultControlHandler::create(), crate::app::NullListener::create(), crate::tcp::AddressFilter::Any)
+        .add_outstation_no_spawn(
+            cfg,
+            Box::new(NoApp),
+            Box::new(NoInfo),
+            crate::outstation::DefaultControlHandler::create(),
+            crate::app::NullListener::create(),
+            crate::tcp::AddressFilter::Any,
+        )
         .expect("add_outstation_no_spawn");
     handle
 }
@@ -126,8 +135,11 @@ pub fn detached_outstation(max_events: u16) -> crate::outstation::OutstationHand
 pub fn db_image(db: &mut crate::outstation::database::Database) -> Vec<u8> {
     use crate::outstation::database::read::{ReadHeader, StaticReadHeader};
     db.inner.reset();
-    db.inner.select_event_classes(crate::master::EventClasses::all());
-    let _ = db.inner.select_by_header(ReadHeader::Static(StaticReadHeader::Class0));
+    db.inner
+        .select_event_classes(crate::master::EventClasses::all());
+    let _ = db
+        .inner
+        .select_by_header(ReadHeader::Static(StaticReadHeader::Class0));
     let mut buf = vec![0u8; 60_000];
     let n = {
         let mut cursor = scursor::WriteCursor::new(&mut buf);
@@ -157,7 +169,12 @@ pub fn some_bad_encoding() -> crate::master::BadEncoding {
 pub fn some_link_error() -> crate::link::error::LinkError {
     crate::link::error::LinkError::Stdio(std::io::ErrorKind::BrokenPipe)
 }
-pub fn header_info(v: crate::app::Variation, q: crate::app::QualifierCode, is_event: bool, has_flags: bool) -> crate::master::HeaderInfo {
+pub fn header_info(
+    v: crate::app::Variation,
+    q: crate::app::QualifierCode,
+    is_event: bool,
+    has_flags: bool,
+) -> crate::master::HeaderInfo {
     crate::master::HeaderInfo::new(v, q, is_event, has_flags)
 }
 pub fn control_field_from(x: u8) -> crate::app::ControlField {
